@@ -210,6 +210,29 @@ def run_values(a):
         ref = Hash(o.serialize()[:80]) if isinstance(o, CBlock) else Hash(o.serialize())
         if not (o.GetHash() == g0 == ref and hash(o) == hash(o.serialize())):
             bad_set += 1000
+    # a mutable transaction may hold its inputs / outputs in a tuple (legal): a snapshot of it is as
+    # independent of later in-place edits of those elements as a snapshot of a list-holding one
+    for t in txs:
+        m = tx_from_val(t, mutable=True)
+        if not m.vin or not m.vout:
+            continue
+        m.vin, m.vout = tuple(m.vin), tuple(m.vout)
+        snaps = [CTransaction.from_tx(m), CTransaction(m.vin, m.vout, m.nLockTime, m.nVersion, m.wit)]
+        b2 = CBlock(h[0], h[1], b'\x00' * 32, h[3], h[4], h[5], vtx=[m])
+        before = [(x.serialize(), x.GetHash(), hash(x)) for x in snaps] + [(b2.serialize(), b2.GetHash(), hash(b2))]
+        m.vin[0].nSequence = (m.vin[0].nSequence + 1) % (1 << 32)
+        m.vin[0].prevout.n = (m.vin[0].prevout.n + 1) % (1 << 32)
+        m.vout[0].nValue += 1
+        after = [(x.serialize(), x.GetHash(), hash(x)) for x in snaps] + [(b2.serialize(), b2.GetHash(), hash(b2))]
+        if before != after or any(x.GetHash() != Hash(x.serialize()) for x in snaps):
+            bad_set += 100000
+        for x in snaps:
+            for e in list(x.vin) + list(x.vout):
+                try:
+                    setattr(e, 'nSequence' if hasattr(e, 'nSequence') else 'nValue', 0)
+                    bad_set += 1000000
+                except AttributeError:
+                    pass
     return [1 if s0 == s1 else 0, 1 if h0 == h1 == Hash(s1[:80]) else 0, 1 if hash(blk) == p0 == hash(s1) else 0,
             bad_set, bad_del]
 
